@@ -2,7 +2,7 @@
 # usage: tools/r2.sh C07 [extra props]  -> runs seedtest on /tmp/r2-C07-out/m{1,2,3}
 P=$1; EXTRA=$2
 for m in m1 m2 m3; do
-  [ -d /tmp/r2-$P-out/$m ] || continue
-  echo "--- $P $m: $(python3 -c "import json;print(json.load(open('/tmp/r2-$P-out/$m/meta.json')).get('summary','')[:150])")"
-  python3 /verif/tools/seedtest.py /tmp/r2-$P-out/$m $P${EXTRA:+,$EXTRA} --demo
+  [ -d /tmp/${R:-r2}-$P-out/$m ] || continue
+  echo "--- $P $m: $(python3 -c "import json;print(json.load(open('/tmp/${R:-r2}-$P-out/$m/meta.json')).get('summary','')[:150])")"
+  python3 /verif/tools/seedtest.py /tmp/${R:-r2}-$P-out/$m $P${EXTRA:+,$EXTRA} --demo
 done
